@@ -71,12 +71,26 @@ def c14 (fn : String) (a : List String) : Option String := do
   | "c14.record" =>
     -- args: sheet(8) hasBook book(8) hasGlobal global(8) → recorded book level + recorded sheet level
     let s ← decLevel? (a.take 8)
-    let _bm ← decOptLevel? ((a.drop 8).headD "") ((a.drop 9).take 8)
+    let bm ← decOptLevel? ((a.drop 8).headD "") ((a.drop 9).take 8)
     let g ← decOptLevel? ((a.drop 17).headD "") ((a.drop 18).take 8)
-    let rb := Options.recordBook g
+    let rb := Options.recordBook g bm
     let rs := Options.recordSheet s
     let enc (l : Options.Level) := s!"{l.namerow} {l.typerow} {l.noterow} {l.datarow} {l.nameline} {l.typeline} {encString l.sep} {encString l.subsep}"
     some (enc rb ++ " / " ++ enc rs)
+  | "c14.e2e" =>
+    -- the sheet is laid out according to the SPECIFIED resolution; the run succeeds with the right
+    -- data iff protogen's view and confgen's view of the recorded options are both that resolution
+    let s ← decLevel? (a.take 8)
+    let bm ← decOptLevel? ((a.drop 8).headD "") ((a.drop 9).take 8)
+    let g ← decOptLevel? ((a.drop 17).headD "") ((a.drop 18).take 8)
+    let spec := Spec.C14.resolved s (bm.getD {}) g
+    let pv := Options.protogenView s bm g
+    let cv := Options.confgenView (Options.recordSheet s) (Options.recordBook g bm)
+    some (if pv == spec && cv == spec then "ok" else "bad")
+  | "o.c14.e2e" =>
+    -- oracle: a sheet laid out by the specified resolution must convert, with exactly its data
+    let obs := (a.drop 26).headD ""
+    some (verdict (obs == "ok"))
   | "o.c14.agree" =>
     -- args: sheet(8) hasBook book(8) hasGlobal global(8) confgenHeader protogenHeader
     let s ← decLevel? (a.take 8)
